@@ -13,7 +13,10 @@ sys.path.insert(0, os.path.dirname(os.path.abspath(__file__)))
 import lib  # noqa: E402
 from replicat.backends.local import Local  # noqa: E402
 
-NAMES = ['data/ab/cd-ef', 'data/ab/zz-11', 'data/b/c', 'snapshots/aa/bb-cc', 'config', 'x/y.tmp', 'sp ace/ü/ß', 'data/abc']
+# 'nf/cafe\u0301' and 'nf/caf\u00e9' are canonically equivalent but DIFFERENT names (decomposed / composed): a store keeps them apart and
+# lists each as it was given
+NAMES = ['data/ab/cd-ef', 'data/ab/zz-11', 'data/b/c', 'snapshots/aa/bb-cc', 'config', 'x/y.tmp', 'sp ace/ü/ß', 'data/abc',
+         'nf/cafe\u0301', 'nf/caf\u00e9']
 
 
 def spellings(base: Path):
